@@ -8,7 +8,7 @@
 (* DyadicMatrix / SO3Matrix classes.                                       *)
 (*   mode "s2"   x in Z[sqrt2], box B2: pair laws (all y), row emitted     *)
 (*   mode "s2t"  (x, y) in the box B2: triple laws (all z)                 *)
-(*   mode "om"   x in Z[omega], box BO: pair laws (all y), row emitted;    *)
+(*   mode "om"   x in Z[omega], box BO: pair laws (y in box BP), row emitted;*)
 (*               the product is cross-checked against Cyclo.tla (M = 3)    *)
 (*   mode "omt"  (x, y) in the box BT: triple laws (all z)                 *)
 (*   mode "mat"  A = word over {H, T} of length <= WLEN: unitarity, SO(3)  *)
@@ -16,7 +16,11 @@
 (*               associativity / distributivity with all B, row emitted    *)
 (***************************************************************************)
 EXTENDS ZRings, Json, FiniteSets, SequencesExt
-CONSTANTS MODES, B2, BO, BE, BT, WLEN          \* MODES: the subset of {"s2", "s2t", "om", "omt", "mat"} to run (one JVM)
+CONSTANTS MODES,       \* the subset of {"s2", "s2t", "om", "omt", "mat"} to run (one JVM)
+          B2,          \* coefficient box of Z[sqrt2]: pairs and triples
+          BO, BP, BE,  \* Z[omega]: x in box BO; pair laws against every y in box BP; emitted rows against every y in box BE
+          BT, SPARSE,  \* Z[omega] triples: x, y in box BT, z in box BT with at most SPARSE non-zero coefficients
+          WLEN         \* words over {H, T} up to this length
 VARIABLES mode, i, j, done
 vars == <<mode, i, j, done>>
 C == INSTANCE Cyclo WITH M <- 3
@@ -27,6 +31,7 @@ OmSet(B) == Box(B) \X Box(B) \X Box(B) \X Box(B)
 S2Seq == TLCEval(SetToSeq(S2Set(B2)))
 OmSeq == TLCEval(SetToSeq(OmSet(BO)))
 OmTSeq == TLCEval(SetToSeq(OmSet(BT)))
+OmZT == TLCEval({z \in OmSet(BT) : Cardinality({m \in 1..4 : z[m] # 0}) <= SPARSE})
 OmESeq == TLCEval(SetToSeq(OmSet(BE)))            \* the operands y of the emitted rows
 NOmE == Len(OmESeq)
 NS2 == Len(S2Seq)
@@ -175,10 +180,12 @@ OmTriple(x, y, z, xy, s) ==
 \* pairs are checked once per unordered pair (every conjunct of OmPair is symmetric or checks both orders)
 LawOm == (mode = "om" /\ done) => \A x \in {OmSeq[i]} :
             /\ OmUnary(x) /\ (i = 1 => OmConsts)
-            /\ \A nx \in {OmNormElV(x)} : \A n \in i..NOm : \A y \in {OmSeq[n]} : OmPair(x, y, nx)
+            /\ \A nx \in {OmNormElV(x)} :
+                  IF BP = BO THEN \A n \in i..NOm : \A y \in {OmSeq[n]} : OmPair(x, y, nx)
+                  ELSE \A y \in OmSet(BP) : OmPair(x, y, nx)
 LawOmT == (mode = "omt" /\ done) => \A x \in {OmTSeq[i]}, y \in {OmTSeq[j]} :
              /\ OmPairT(x, y)
-             /\ \A xy \in {OmMulV(x, y)}, s \in {OmAddV(x, y)} : \A z \in OmSet(BT) : OmTriple(x, y, z, xy, s)
+             /\ \A xy \in {OmMulV(x, y)}, s \in {OmAddV(x, y)} : \A z \in OmZT : OmTriple(x, y, z, xy, s)
 
 (* ------------------------------- laws: matrices ------------------------ *)
 MatUnary(n) ==
